@@ -28,7 +28,7 @@ inline std::vector<int32_t> ElementsOf(const RSModel& m, const std::string& base
 // random value of the given typification over the current base interpretations (may be impossible: nullopt)
 inline std::optional<StructuredData> RandomValue(sim::Rng& r, const Typification& t, const RSModel& m, int depth = 0) {
   if (t.IsElement()) {
-    if (t == Typification::Integer()) return Factory::Val(r.Range(-2, 9));
+    if (t == Typification::Integer()) { static const std::vector<int32_t> far{ -2147483647, -2000000000, -1073741824, 1073741824, 2000000000, 2147483647 }; return Factory::Val(r.Pct(6) ? r.Pick(far) : static_cast<int32_t>(r.Range(-2, 9))); }   // sometimes integers further apart than INT32_MAX
     const auto el = ElementsOf(m, t.E().baseID);
     if (el.empty()) return std::nullopt;
     return Factory::Val(r.Pick(el));
